@@ -9,6 +9,7 @@ use vstd::std_specs::cmp::*;
 use core::cmp::Ordering;
 verus! {
 //@prelude std_combinators
+//@prelude std_ints
 
 // q is n/d rounded to nearest, ties away from zero (n >= 0, d > 0), stated without division
 pub open spec fn is_rha_nonneg(n: int, d: int, q: int) -> bool {
@@ -118,7 +119,7 @@ impl Fixed {
             b.0 != 0 && representable(abs(self.0 as int) * abs(a.0 as int), abs(b.0 as int))
                 ==> is_rha_nonneg(abs(self.0 as int) * abs(a.0 as int), abs(b.0 as int),
                     if ((self.0 < 0) != (a.0 < 0)) != (b.0 < 0) { -(r.0 as int) } else { r.0 as int }),
-//@at before "if self.0 < 0"
+//@at body-start
         proof {
             let x = self.0; let y = a.0; let z = b.0;
             assert(x >= 0 ==> x as u64 == x as u32 as u64 && (x as u64) < 0x8000_0000u64) by(bit_vector);
@@ -127,6 +128,10 @@ impl Fixed {
             assert(x < 0 ==> 0u64.wrapping_sub(x as u64) == (-(x as i64)) as u64 && 0u64.wrapping_sub(x as u64) <= 0x8000_0000u64) by(bit_vector);
             assert(y < 0 ==> 0u64.wrapping_sub(y as u64) == (-(y as i64)) as u64 && 0u64.wrapping_sub(y as u64) <= 0x8000_0000u64) by(bit_vector);
             assert(z < 0 ==> 0u64.wrapping_sub(z as u64) == (-(z as i64)) as u64 && 0u64.wrapping_sub(z as u64) <= 0x8000_0000u64) by(bit_vector);
+            // facts about the operands only (they hold whatever the body does): keep sign-by-xor / widen-then-abs variants provable
+            assert(((x ^ y ^ z) < 0) == (((x < 0) != (y < 0)) != (z < 0))) by(bit_vector);
+            assert(((x ^ y) < 0) == ((x < 0) != (y < 0))) by(bit_vector);
+            assert((x as i64) as int == x as int && (y as i64) as int == y as int && (z as i64) as int == z as int);
         }
 //@at before "let result ="
         assert(su as int == abs(self.0 as int));
@@ -196,7 +201,7 @@ impl F26Dot6 {
             b.0 != 0 && representable(abs(self.0 as int) * abs(a.0 as int), abs(b.0 as int))
                 ==> is_rha_nonneg(abs(self.0 as int) * abs(a.0 as int), abs(b.0 as int),
                     if ((self.0 < 0) != (a.0 < 0)) != (b.0 < 0) { -(r.0 as int) } else { r.0 as int }),
-//@at before "if self.0 < 0"
+//@at body-start
         proof {
             let x = self.0; let y = a.0; let z = b.0;
             assert(x >= 0 ==> x as u64 == x as u32 as u64 && (x as u64) < 0x8000_0000u64) by(bit_vector);
@@ -205,6 +210,10 @@ impl F26Dot6 {
             assert(x < 0 ==> 0u64.wrapping_sub(x as u64) == (-(x as i64)) as u64 && 0u64.wrapping_sub(x as u64) <= 0x8000_0000u64) by(bit_vector);
             assert(y < 0 ==> 0u64.wrapping_sub(y as u64) == (-(y as i64)) as u64 && 0u64.wrapping_sub(y as u64) <= 0x8000_0000u64) by(bit_vector);
             assert(z < 0 ==> 0u64.wrapping_sub(z as u64) == (-(z as i64)) as u64 && 0u64.wrapping_sub(z as u64) <= 0x8000_0000u64) by(bit_vector);
+            // facts about the operands only (they hold whatever the body does): keep sign-by-xor / widen-then-abs variants provable
+            assert(((x ^ y ^ z) < 0) == (((x < 0) != (y < 0)) != (z < 0))) by(bit_vector);
+            assert(((x ^ y) < 0) == ((x < 0) != (y < 0))) by(bit_vector);
+            assert((x as i64) as int == x as int && (y as i64) as int == y as int && (z as i64) as int == z as int);
         }
 //@at before "let result ="
         assert(su as int == abs(self.0 as int));
